@@ -23,6 +23,7 @@ ASSUMPTIONS = [
     "p2 is judged permissively about the proposer's own acceptor state (only message-visible facts are used): the value may follow the peers' promises alone or the peers' promises plus any value the proposer itself may have accepted earlier",
     "p3/d1 count the proposer itself as one promiser/acceptor (its self-promise/self-accept is not visible on the network)",
     "Multi/Flexible Paxos: an instance is a log slot; a node 'reports a decision' for slot i while i <= log.commit_index; commands are pairwise distinct strings; commands reach a leader through submit() before leadership, through submit() followed by the replication call used by examples/distributed/flexible_paxos_quorums.py, or (Multi-Paxos) through a MultiPaxosForward event",
+    "hand-over obligations: fault-free FIFO network, the challenger starts after the first leader's commit was announced (earlier the open finding stability-commit-index-decreased occurs), the client uses plain submit() on the old leader; only state clauses and the liveness of the commands handed to the two elected leaders are judged there (p2 and slot-keyed futures are open findings in that domain too)",
     "liveness is judged only fault-free with delays <= 8 ticks and a horizon of 12 maximal delays (+ heartbeats where commit propagation needs one)",
     "lock: at most one holder is judged on client-visible leases: a grant is live until it is released with its token or until granted_at + lease_duration (2 ns tolerance); lease expiry events are scheduled by the caller as in the repo's tests",
     "election: members are given to every node at construction; optional late joiners are registered with add_member() on every node at one instant before they start",
@@ -336,6 +337,9 @@ class LogJudge:
 
     ``pre`` is the message-type prefix ("MultiPaxos" | "FlexPaxos"); q1/q2 are the phase-1/phase-2 quorums."""
 
+    MECHANISM = ("a1", "a2", "p0", "p1", "p2", "p3", "d1", "d2", "future")
+    state_only = False      # True: only agreement / validity / stability / applied-order clauses are reported
+
     def __init__(self, r, obl, variant, pre, nodes, sms, q1, q2):
         self.r, self.obl, self.variant, self.pre, self.nodes, self.sms, self.q1, self.q2 = r, obl, variant, pre, nodes, sms, q1, q2
         self.names = {x.name: x for x in nodes}
@@ -360,6 +364,8 @@ class LogJudge:
         self.commits = 0
 
     def v(self, clause, detail):
+        if self.state_only and clause.split("-")[0] in self.MECHANISM:
+            return
         s = f"{P}/{self.obl}/{clause}"
         if s not in self.sig:
             self.sig.add(s)
@@ -571,7 +577,7 @@ def log_strategy(variant, safe=False):
     return s
 
 
-def run_log(case, obl, variant, safe=False):
+def run_log(case, obl, variant, safe=False, end_ticks=END_TICKS, state_only=False, post=None):
     r = Result()
     case = case if isinstance(case, dict) else {}
     n = clampi(case.get("n"), 3, 5)
@@ -589,14 +595,15 @@ def run_log(case, obl, variant, safe=False):
         pre = "FlexPaxos"
         mk = lambda i, name, net: mod.FlexiblePaxosNode(name, net, state_machine=sms[i], phase1_quorum=q1, phase2_quorum=q2,
                                                         heartbeat_interval=hb)
-    cl = Cluster(case.get("net"), n, mk, END_TICKS)
+    cl = Cluster(case.get("net"), n, mk, end_ticks)
     for x in cl.nodes:
         x.set_peers(cl.nodes)
     j = LogJudge(r, obl, variant, pre, cl.nodes, {x.name: sms[i] for i, x in enumerate(cl.nodes)}, q1, q2)
+    j.state_only = state_only
     starts = as_list(case.get("starts"))[:1 if safe else 6]
     for row in starts:
         node = cl.nodes[as_int(field(row, 1)) % n]
-        cl.at(clampi(field(row, 0), 0, END_TICKS - 1), "start", lambda ev, node=node: node.start(), daemon=True)
+        cl.at(clampi(field(row, 0), 0, end_ticks - 1), "start", lambda ev, node=node: node.start(), daemon=True)
     modes = set()
     used_cmds = []
     cmd_values = [pick_value(field(as_list(case.get("cvals")), k), k, "c", used_cmds) for k in range(12)]
@@ -623,9 +630,11 @@ def run_log(case, obl, variant, safe=False):
                 return node._replicate_slot(node.log.last_index)
             modes.add("submit-to-leader" if was_leader else "submit-pending")
             return None
-        cl.at(clampi(field(row, 0), 0, END_TICKS - 1), "client", go)
+        cl.at(clampi(field(row, 0), 0, end_ticks - 1), "client", go)
     status = cl.run(j.step, RandomShim(1), ())
     j.finish()
+    if post is not None:
+        post(r, j, cl, sms, cmd_values, status)
     nb = len(j.started)
     r.nontrivial = nb >= 2 and j.takeover_with_uncommitted >= 1 and j.commits >= 1
     r.labels += [f"{variant}", f"ballots={min(nb, 4)}", f"leaders={min(len(j.leaders_seen), 3)}",
@@ -679,6 +688,71 @@ def run_log_safe(case, obl, variant):
             "net": {"delays": [d], "seed": 0, "loss": 0, "drops": [], "parts": []}}
     r = run_log(full, obl, variant, safe=True)
     r.nontrivial = "commits" in r.labels and len(cmds) >= 2
+    return r
+
+
+# ---- leader hand-over on a fault-free FIFO network ----------------------------------------------------
+def handover_strategy(tier):
+    return st.fixed_dictionaries({
+        "n": st.sampled_from([3, 4, 5]),
+        "d": st.integers(1, 40),
+        "hb": st.sampled_from([16, 64, 256]),
+        "q": st.integers(0, 14),
+        "lead": st.tuples(st.integers(0, 4), st.integers(0, 3)).map(list),
+        "t1": st.integers(0, 20),
+        "gap": st.one_of(st.integers(0, 8), st.integers(0, 200)),
+        "k1": st.integers(1, 3),
+        "k2": st.integers(1, 3),
+        "xs": st.lists(st.tuples(st.integers(-8, 24), st.integers(0, 3)).map(list), max_size=3),
+        "cvals": st.lists(VALSEL, max_size=9),
+    })
+
+
+def run_handover(case, obl, variant):
+    """One established leader L1 (k1 commands handed to it before start()), later one challenger L2 (k2 commands handed to it
+    before its start()), a client that keeps calling submit() on L1 at instants around the hand-over. Reliable network, one
+    constant delay d (FIFO). State clauses and 'the elected leaders' commands are applied everywhere' with no exclusion."""
+    case = case if isinstance(case, dict) else {}
+    n = clampi(case.get("n"), 3, 5)
+    d = clampi(case.get("d"), 1, 64)
+    hbt = clampi(case.get("hb"), 1, 1024)
+    lead = case.get("lead")
+    a = as_int(field(lead, 0)) % n
+    b = (a + 1 + as_int(field(lead, 1)) % (n - 1)) % n
+    t1 = clampi(case.get("t1"), 0, 50)
+    # L2 starts only after L1's commit has been announced to it (commit at t1+4d, next heartbeat within hb, delivery d):
+    # an earlier challenger re-replicates the committed-but-unannounced slots under its ballot, the old leader truncates
+    # below its commit index and retracts the decision for an instant (open finding stability-commit-index-decreased)
+    t2 = t1 + 5 * d + hbt + 2 + clampi(case.get("gap"), 0, 400)
+    k1, k2 = clampi(case.get("k1"), 1, 3), clampi(case.get("k2"), 1, 3)
+    cmds = [[t1, a, 0]] * k1 + [[t2, b, 0]] * k2
+    inside = 0
+    for row in as_list(case.get("xs"))[:3]:
+        off = (clampi(field(row, 0), -8, 24) * d) // 4 + clampi(field(row, 1), 0, 3)
+        tx = max(0, t2 + off)
+        if t2 + d <= tx <= t2 + 3 * d:
+            inside += 1
+        cmds.append([tx, a, 0])
+    end = t2 + 10 * d + 3 * hbt + 16
+    full = {"n": n, "hb": hbt, "q": case.get("q"), "starts": [[t1, a], [t2, b]], "cmds": cmds, "cvals": case.get("cvals"),
+            "net": {"delays": [d], "seed": 0, "loss": 0, "drops": [], "parts": []}}
+
+    def post(r, j, cl, sms, cmd_values, status):
+        if status != "done":
+            return
+        must = cmd_values[:k1 + k2]
+        for i, x in enumerate(cl.nodes):
+            missing = [short(c) for c in must if not any(c == y and type(c) is type(y) for y in sms[i].applied)]
+            if missing:
+                r.add(f"{P}/{obl}/elected-leaders-command-not-applied-everywhere",
+                      f"{x.name} applied {[short(c) for c in sms[i].applied]}; missing {missing} (handed to {cl.nodes[a].name}/"
+                      f"{cl.nodes[b].name} before their start(); d={d}, hb={hbt}, hand-over at {t2}, horizon {end} ticks)")
+                break
+
+    r = run_log(full, obl, variant, end_ticks=end, state_only=True, post=post)
+    r.nontrivial = inside >= 1 or (2 * d * 2 >= hbt)
+    r.labels += ["submit-inside-handover-window" if inside else "no-submit-inside-window", f"d={'<8' if d < 8 else '>=8'}", f"hb={hbt}"]
+    r.target = float(inside)
     return r
 
 
@@ -1102,6 +1176,13 @@ RULE_LIVE = ("fault-free network, per-message delays 0-8 ticks from the case: (p
              "(after 2 max-delays) through submit() / submit()+replication call / MultiPaxosForward: every command must be replicated, "
              "committed and applied in order at every node within 6 max-delays + 2 heartbeats; non-trivial = max delay >= 2 or k >= 2")
 
+RULE_HANDOVER = ("leader hand-over of {v} on a fault-free FIFO network (one constant delay d = 1-40 ticks, no loss, no partition): L1 gets 1-3 "
+                 "commands before its start(); after L1's commit was announced (>= 5d + one heartbeat later) a different node L2 gets 1-3 commands and start()s (higher ballot); a client "
+                 "calls submit() on L1 at 0-3 instants from 2d before to 6d after the hand-over (incl. the window between L2's Prepare and "
+                 "L2's first heartbeat reaching L1); heartbeat 16-256 ticks, all (Q1,Q2); judged with no exclusion: per-slot agreement, "
+                 "validity, stability, applied order after every event, and every command handed to L1/L2 before their start() applied at "
+                 "every node within 10d + 3 heartbeats; non-trivial = a submit inside the window, or the window is at least a quarter heartbeat")
+
 OBLIGATIONS = [
     Obligation("paxos", paxos_strategy, lambda c: run_paxos(c, "paxos"), {"quick": 1400, "thorough": 80000}, RULE_PAXOS),
     Obligation("multi", log_strategy("multi"), lambda c: run_log(c, "multi", "multi"), {"quick": 700, "thorough": 40000},
@@ -1112,6 +1193,10 @@ OBLIGATIONS = [
                {"quick": 450, "thorough": 20000}, RULE_SAFE.format(v="multi")),
     Obligation("flexible-safe", log_safe_strategy("flexible"), lambda c: run_log_safe(c, "flexible-safe", "flexible"),
                {"quick": 450, "thorough": 20000}, RULE_SAFE.format(v="flexible")),
+    Obligation("multi-handover", handover_strategy, lambda c: run_handover(c, "multi-handover", "multi"),
+               {"quick": 450, "thorough": 20000}, RULE_HANDOVER.format(v="MultiPaxosNode")),
+    Obligation("flexible-handover", handover_strategy, lambda c: run_handover(c, "flexible-handover", "flexible"),
+               {"quick": 450, "thorough": 20000}, RULE_HANDOVER.format(v="FlexiblePaxosNode")),
     Obligation("liveness", liveness_strategy(False), lambda c: run_liveness(c, "liveness"), {"quick": 500, "thorough": 20000}, RULE_LIVE),
     Obligation("liveness-safe", liveness_strategy(True), lambda c: run_liveness(c, "liveness-safe"), {"quick": 400, "thorough": 20000},
                RULE_LIVE + " — restricted to the paths that are live on this tree: single-decree Paxos, and Multi/Flexible Paxos on a FIFO "
